@@ -125,14 +125,25 @@ def edit_cases(rng, tier):
         ind = '    '
         names = {}
         body = []
+        # a third of the documents are "dense": comments between the objects, objects that share a line with their neighbour
+        # or with the /end of the MODULE (only the token oracle applies to them, see extra_stage)
+        dense = i % 3 == 2
+        if dense:
+            k = min(k, 12)
         for j in range(k):
             kind = rng.choice(sorted(EDIT_KINDS))
             name = 'e%02d' % j
             names.setdefault(kind, []).append(name)
             t = EDIT_TEXT[kind]
             el = t % ((name,) + (ind,) * (t.count('%s') - 1))
-            body.append('\n' * rng.choice([1, 1, 2, 3]) + ind + el)
-        text = 'ASAP2_VERSION 1 71\n/begin PROJECT p ""\n  /begin MODULE m ""' + ''.join(body) + '\n  /end MODULE\n/end PROJECT\n'
+            if dense:
+                el = el.replace('\n', rng.choice(['\n', ' ', ' ']))
+                sep = rng.choice(['\n', '\n', ' ', '\n// note %d\n' % j, '\n/* note %d */ ' % j, '\n  // a\n  // b\n', ' /* c */ '])
+                body.append(sep + ind + el)
+            else:
+                body.append('\n' * rng.choice([1, 1, 2, 3]) + ind + el)
+        end_sep = rng.choice([' ', '\n', '\n// last\n', ' /* last */ ']) if dense else '\n'
+        text = 'ASAP2_VERSION 1 71\n/begin PROJECT p ""\n  /begin MODULE m ""' + ''.join(body) + end_sep + '  /end MODULE\n/end PROJECT\n'
         ops = []
         fresh = 0
         heavy = rng.random() < 0.5         # several new objects of one kind, then further edits
@@ -160,8 +171,65 @@ def edit_cases(rng, tier):
                     what = 'remove'
                 names[kd].remove(nm)
                 ops.append([what, kd, nm])
-        out.append((text, ops))
+        out.append((text, ops, dense))
+    # an object that shares its line with what follows it and stands behind a // comment: when it is removed, the writer must
+    # not put the next token on the line of the comment
+    for kd in sorted(EDIT_KINDS):
+        t = EDIT_TEXT[kd]
+        one = lambda nm: (t % ((nm,) + ('',) * (t.count('%s') - 1))).replace('\n', ' ')
+        head = 'ASAP2_VERSION 1 71\n/begin PROJECT p ""\n  /begin MODULE m ""\n    ' + one('first') + '\n'
+        for cm in ('    // last comment\n', '    /* c */ // tail\n', '    // one\n    // two\n'):
+            out.append((head + cm + '    ' + one('victim') + ' /end MODULE\n/end PROJECT\n', [['remove', kd, 'victim']], True))
+            out.append((head + cm + '    ' + one('victim') + ' ' + one('next') + '\n  /end MODULE\n/end PROJECT\n',
+                        [['remove', kd, 'victim'], ['remove', kd, 'next']], True))
+            out.append((head.replace('\n', '\r\n') + cm.replace('\n', '\r\n') + '    ' + one('victim') + ' ' + one('next') + '\r\n  /end MODULE\r\n/end PROJECT\r\n',
+                        [['remove', kd, 'victim']], True))
     return out
+
+
+def _span(toks, tag, name):
+    """(i, j): token indices of /begin TAG name .. /end TAG"""
+    for i in range(len(toks) - 2):
+        if toks[i][0] == 'begin' and toks[i + 1][1] == tag and toks[i + 2][1] == name:
+            for j in range(i + 3, len(toks) - 1):
+                if toks[j][0] == 'end' and toks[j + 1][1] == tag:
+                    return i, j + 1
+    return None
+
+
+def token_effect(before, after, op):
+    """None if the significant tokens of the output changed by exactly the tokens of the object of the edit"""
+    from checks import loadlib
+    a, b = loadlib.scan_tokens(before), loadlib.scan_tokens(after)
+    if a is None or b is None:
+        return 'the output cannot be cut into tokens'
+    a = [(t[0], t[1]) for t in a]
+    b = [(t[0], t[1]) for t in b]
+    tag = EDIT_KINDS[op[1]]
+    if op[0] == 'push':
+        sp = _span(b, tag, op[2])
+        if sp is None:
+            return 'the tokens of the new %s %s are not in the output' % (tag, op[2])
+        rest = b[:sp[0]] + b[sp[1] + 1:]
+        if rest != a:
+            k = next((i for i, (x, y) in enumerate(zip(rest, a)) if x != y), min(len(rest), len(a)))
+            return 'adding %s %s changes other tokens: token %d was %r, is %r' % (tag, op[2], k, a[k] if k < len(a) else None, rest[k] if k < len(rest) else None)
+        return None
+    sp = _span(a, tag, op[2])
+    if sp is None:
+        return None
+    if op[0] in ('remove', 'swapremove'):
+        rest = a[:sp[0]] + a[sp[1] + 1:]
+        if rest != b:
+            k = next((i for i, (x, y) in enumerate(zip(rest, b)) if x != y), min(len(rest), len(b)))
+            return 'removing %s %s changes other tokens: token %d was %r, is %r' % (tag, op[2], k, rest[k] if k < len(rest) else None, b[k] if k < len(b) else None)
+        return None
+    if len(a) != len(b):
+        return 'changing a field of %s %s changes the number of tokens (%d -> %d)' % (tag, op[2], len(a), len(b))
+    for i, (x, y) in enumerate(zip(a, b)):
+        if x != y and not (sp[0] <= i <= sp[1]):
+            return 'changing a field of %s %s changes token %d outside of it: %r -> %r' % (tag, op[2], i, x, y)
+    return None
 
 
 def element_lines(lines, tag, name):
@@ -222,10 +290,10 @@ def locality(before, after, op):
 
 def extra_stage(v, tier, rng, impl):
     ecs = edit_cases(rng, tier)
-    lines = [sx.enc([t, ops]) for t, ops in ecs]
+    lines = [sx.enc([t, ops]) for t, ops, dense in ecs]
     out = fw.run_isolating([impl, 'EDIT'], lines, single_timeout=60)
     found, steps, big = [], 0, 0
-    for (text, ops), line_in, line in zip(ecs, lines, out):
+    for (text, ops, dense), line_in, line in zip(ecs, lines, out):
         if line is None or line.startswith('DIED'):
             found.append({'payload': {'kind': 'EDIT', 'case': line_in, 'text': text, 'ops': ops, 'why': 'implementation died', 'stage': 'W (edit locality)'}})
             continue
@@ -238,12 +306,13 @@ def extra_stage(v, tier, rng, impl):
             big += 1
         for i, op in enumerate(ops):
             steps += 1
-            why = locality(texts[i], texts[i + 1], op)
+            why = token_effect(texts[i], texts[i + 1], op) or (None if dense else locality(texts[i], texts[i + 1], op))
             if why:
-                found.append({'payload': {'kind': 'EDIT', 'case': line_in, 'text': text, 'ops': ops, 'step': i, 'why': why,
+                found.append({'payload': {'kind': 'EDIT', 'case': line_in, 'text': text, 'ops': ops, 'step': i, 'why': why, 'dense': dense,
                                           'stage': 'W (edit locality)'}})
                 break
     v.coverage['edit_histories'] = len(ecs)
+    v.coverage['edit_histories_dense_layout'] = sum(1 for e in ecs if e[2])
     v.coverage['edit_steps'] = steps
     v.coverage['edit_histories_with_more_than_20_children'] = big
     v.coverage['edit_locality_failures'] = len(found)
@@ -266,8 +335,8 @@ def replay(r):
         texts = [x.decode('utf-8', 'replace') for x in a[1:]]
         rc = 0
         for i, op in enumerate(r['ops']):
-            why = locality(texts[i], texts[i + 1], op)
-            print('step %d %s: %s' % (i, op, why or 'only lines of the object change'))
+            why = token_effect(texts[i], texts[i + 1], op) or (None if r.get('dense') else locality(texts[i], texts[i + 1], op))
+            print('step %d %s: %s' % (i, op, why or 'only lines / tokens of the object change'))
             rc = rc or (1 if why else 0)
         return rc
     return loadcheck.replay(r, me)
